@@ -79,7 +79,6 @@ def install(E):
 
     def v_assume(E, name, args, ins):
         E.assume(args[0], note="Assume@%s" % ins.get("pos", ""))
-        E.guard = And(E.guard, args[0])
         return None
     I[ZV + "Assume"] = v_assume
 
